@@ -3,8 +3,8 @@
    The model (Model/C16.v) transcribes connstate/state.go, connstate/config.go and the handlers of
    scheduler/events.go that drive the State.  [run c init ops] is the state after the history [ops]
    (any sequence of AddPending / DeletePending / MoveToActive / DeleteActive / Blacklist /
-   ClearBlacklist / clock ticks / announce results / connection-closed, failed-handshake and
-   torrent-complete events / queries, over any torrents, peers and connections); [c] is the
+   ClearBlacklist / clock ticks / announce results / incoming handshakes / connection-closed,
+   failed-handshake and torrent-complete events / queries, over any torrents, peers and connections); [c] is the
    configuration after applyDefaults. *)
 From Coq Require Import List NArith ZArith Bool.
 From K.Model Require Import C16.
@@ -226,6 +226,13 @@ Proof. vm_compute. reflexivity. Qed.
 Example C16_nonvacuous_mutual :
   snd (run (apply_defaults (mkcfg 5 1 false 10)) init
         [AddPending 0 0 []; AddPending 1 0 []; AddPending 2 0 [0]; DeletePending 2 0; AddPending 2 0 [0; 1]]%N)
+  = [OAdd AddOk; OAdd AddOk; OAdd AddOk; OUnit; OAdd TooManyMutual].
+Proof. vm_compute. reflexivity. Qed.
+
+(* the same limit applied to an incoming handshake that lists its neighbours (events.go:145) *)
+Example C16_nonvacuous_incoming :
+  snd (run (apply_defaults (mkcfg 5 1 false 10)) init
+        [AddPending 0 0 []; AddPending 1 0 []; EvIncoming 2 0 [0]; DeletePending 2 0; EvIncoming 2 0 [0; 1]]%N)
   = [OAdd AddOk; OAdd AddOk; OAdd AddOk; OUnit; OAdd TooManyMutual].
 Proof. vm_compute. reflexivity. Qed.
 
